@@ -26,6 +26,11 @@ pub fn run(ctx: &Ctx) -> CheckResult {
         spaces.push(Space { cfg: Cfg::p1(Kind::Cci, n), alphabet: with_reset(grid.clone()), depth: db, label: "B_grid+reset" });
         spaces.push(Space { cfg: Cfg::p1(Kind::Mfi, n), alphabet: vol.clone(), depth: dv, label: "B_vol" });
     }
+    // MFI-specific alphabet with equal typical prices between different bars, deeper
+    let mfi_bars = b_ops(&b_mfi());
+    for n in 1..=4usize {
+        spaces.push(Space { cfg: Cfg::p1(Kind::Mfi, n), alphabet: mfi_bars.clone(), depth: if th { 10 } else { 8 }, label: "B_mfi" });
+    }
     // the same alphabets in a tiny price unit (2^-60): absolute epsilons / thresholds become visible
     let tiny_pos = with_reset(s_ops(&S_TINY));
     let tiny_grid = b_ops(&scale_bars(&b_grid(), TINY));
@@ -116,7 +121,7 @@ pub fn run(ctx: &Ctx) -> CheckResult {
     }
     res.require(res.out.stats.evaluations > 0, "no applicable oracle evaluation");
     res.rule = "case = (configuration, history of positive prices / valid bars) replayed on a fresh real instance; last output compared with the documented formula evaluated from scratch (double-double) at tolerance tau(t)*c*scale; steps with zero reference denominator or c>1e6 are skipped and counted; non-trivial = applicable and history longer than the look-back".into();
-    res.bounds = format!("seq(S_pos+reset,{d}) for RSI/FAST_STOCH/ROC/ER n=1..5; seq(B_grid+reset,{db}) for FAST_STOCH/CCI/OBV; seq(B_vol,{dv}) for MFI n=1..5 and OBV; the same alphabets in a 2^-60 price unit for periods 1..4 at reduced depth; SLOW_STOCH over {{1,2,3,5}}^2, PPO over {{1,2,3,5}}^3 at reduced depth; deviation families for periods up to {}", if th { 512 } else { 100 });
+    res.bounds = format!("seq(S_pos+reset,{d}) for RSI/FAST_STOCH/ROC/ER n=1..5; seq(B_grid+reset,{db}) for FAST_STOCH/CCI/OBV; seq(B_vol,{dv}) for MFI n=1..5 and OBV; seq(B_mfi (5 bars with equal typical prices), 8/10) for MFI n=1..4; the same alphabets in a 2^-60 price unit for periods 1..4 at reduced depth; SLOW_STOCH over {{1,2,3,5}}^2, PPO over {{1,2,3,5}}^3 at reduced depth; deviation families for periods up to {}", if th { 512 } else { 100 });
     res.assumptions = vec!["positive prices / valid bars only (the statement's domain)".into(), "c read as (largest magnitude entering numerator or denominator, inputs included) / |reference denominator|".into()];
     res
 }
